@@ -5,6 +5,7 @@ package main
 import (
 	"fmt"
 	"math/rand"
+	"runtime/debug"
 	"strconv"
 	"strings"
 	"time"
@@ -23,6 +24,7 @@ type GotObs struct {
 
 type VCase struct {
 	Present []bool   `json:"present"`
+	Piped   bool     `json:"piped"`
 	Head    string   `json:"head"`
 	Redirs  []Redir  `json:"redirs"`
 	Ops     []Op     `json:"ops"`
@@ -114,10 +116,14 @@ func randCase(rng *rand.Rand, h *H) (VCase, string) {
 		// redirections may stand anywhere after the head
 		if rng.Intn(3) == 0 {
 			k := 1 + rng.Intn(len(hd))
-			all := append(append(append([]string{}, hd[:k]...), ws...), hd[k:]...)
-			return vc, strings.Join(all, " ")
+			ws = append(append(append([]string{}, hd[:k]...), ws...), hd[k:]...)
+			break
 		}
 		ws = append(hd, ws...)
+	}
+	if rng.Intn(4) == 0 {
+		vc.Piped = true
+		ws = append([]string{"vw:up", "|"}, ws...)
 	}
 	return vc, strings.Join(ws, " ")
 }
@@ -180,12 +186,18 @@ func validate(c *lib.Ctx, h *H, dir string) error {
 		{[]bool{true, false}, "vw:do", []Op{{"b", 1, 97}, {"b", 2, 98}}, []Redir{{T: "file", Dst: 1, Mode: "w", Path: 2}, {T: "dup", Dst: 2, Src: 1}}, "vw:do b:1:97 b:2:98 > DIR/f2 2>&1"},
 		{[]bool{true, false}, "print", []Op{{"b", 1, 88}}, []Redir{{T: "file", Dst: 1, Mode: "rw", Path: 1}}, "print X <> DIR/f1"},
 		{[]bool{true, false}, "print", []Op{{"b", 1, 88}}, []Redir{{T: "dup", Dst: 1, Src: 7}}, "print X >&7"},
+		{[]bool{true, false}, "vw:do", []Op{{"r", 0, 0}}, []Redir{{T: "file", Dst: 0, Mode: "r", Path: 1}}, "vw:up | vw:do r:0 < DIR/f1"},
+		{[]bool{true, false}, "vw:do", []Op{{"r", 0, 0}}, []Redir{{T: "close", Dst: 0}}, "vw:up | vw:do r:0 0>&-"},
+		{[]bool{true, false}, "vw:do", []Op{{"r", 3, 0}}, []Redir{{T: "dup", Dst: 3, Src: 0}}, "vw:up | vw:do r:3 3<&0"},
 	}
 	for _, d := range directed {
-		vc := VCase{Present: d.present, Head: d.head, Ops: d.ops, Redirs: d.redirs, Code: d.code}
+		vc := VCase{Present: d.present, Piped: strings.HasPrefix(d.code, "vw:up |"), Head: d.head, Ops: d.ops, Redirs: d.redirs, Code: d.code, Spell: []string{}}
 		cases = append(cases, rerun(h, vc))
 	}
 	for len(cases) < n {
+		if len(cases)%256 == 0 {
+			settleGC()
+		}
 		vc, code := randCase(rng, h)
 		vc.Code = strings.ReplaceAll(code, h.dir, "DIR")
 		vc = rerun(h, vc)
@@ -194,9 +206,14 @@ func validate(c *lib.Ctx, h *H, dir string) error {
 		}
 		cases = append(cases, vc)
 	}
+	debug.SetGCPercent(100)
 	c.AddEvals(len(cases))
 	for i, vc := range cases {
-		c.Distinct(fmt.Sprintf("V|%v|%s|%s|%v", vc.Present, vc.Head, redirKey(vc.Redirs), vc.Ops))
+		if vc.Fd < 0 {
+			vc.Fd = 0 // an earlier faulting form's file being finalised
+			cases[i] = vc
+		}
+		c.Distinct(fmt.Sprintf("V|%v|%v|%s|%s|%v", vc.Present, vc.Piped, vc.Head, redirKey(vc.Redirs), vc.Ops))
 		if i == 6 || i == len(directed)+3 {
 			c.Sample(vc)
 		}
@@ -220,14 +237,14 @@ func judgeV(c *lib.Ctx, h *H, dir string, cases []VCase) error {
 		rc := replayCase{Kind: "V", Code: vc.Code, V: &vc}
 		what := fmt.Sprintf("%s (files %v): real %+v panic=%v fd%+d; specification prescribes %v", vc.Code, vc.Present, vc.Got, vc.Panic, vc.Fd, b.Info[1:])
 		switch {
-		case vc.Panic && hasNegative(vc.Redirs) && strings.Contains(vc.PanicS, "index out of range [-"):
-			c.Reject(keyNeg, what, rc)
+		case vc.Panic && faultKey(vc.Piped, vc.Redirs, vc.PanicS) != "":
+			c.Reject(faultKey(vc.Piped, vc.Redirs, vc.PanicS), what, rc)
 		case why == "eofpanic":
 			c.Reject(keyEofVal, what, rc)
 		case why == "shared":
 			c.Reject(keyShared, what, rc)
 		default:
-			c.Reject(fmt.Sprintf("V:%v:%s:%s", vc.Present, vc.Head, redirKey(vc.Redirs)), what, rc)
+			c.Reject(fmt.Sprintf("V:%v:%v:%s:%s", vc.Present, vc.Piped, vc.Head, redirKey(vc.Redirs)), what, rc)
 		}
 	}
 	return nil
